@@ -119,6 +119,8 @@ def evaluate(work, module, records, shard_size=2000, jobs=8, timeout=900, env=No
     """
     if not records:
         return []
+    import gc
+    gc.collect()       # free leftover SQLite objects in this thread, not in the evaluator threads
     prepare(work, module, cfg_text)
     shards = [records[i:i + shard_size] for i in range(0, len(records), shard_size)]
 
